@@ -73,6 +73,10 @@ type obSummary struct {
 	Seconds   float64  `json:"solver_seconds"`
 	worst     *Oblig
 	queryFile string
+	// thorough tier: the smallest number of solvers that answered unsat for a
+	// path instance of this obligation (0 = not applicable: decided by the
+	// quantifier-free relaxation, trivially, or by the scan)
+	MinAgree int `json:"solvers_agreeing,omitempty"`
 }
 
 func explicitKind(kind string) bool {
@@ -339,8 +343,16 @@ func cmdCheck(args []string) int {
 		"integers are mathematical with explicit range side-conditions on int/int64 arithmetic; strings are SMT strings; byte slices are immutable values")
 	tb = append(tb, lemmaNotes...)
 	var obl []map[string]interface{}
+	var fragile []string
 	for _, s := range summaries {
-		obl = append(obl, map[string]interface{}{"name": s.Name, "verdict": s.Verdict, "path_instances": s.Instances, "solvers": s.Solvers, "seconds": s.Seconds})
+		ent := map[string]interface{}{"name": s.Name, "verdict": s.Verdict, "path_instances": s.Instances, "solvers": s.Solvers, "seconds": s.Seconds}
+		if s.MinAgree > 0 {
+			ent["solvers_agreeing"] = s.MinAgree
+			if s.MinAgree == 1 && s.Verdict == "discharged" {
+				fragile = append(fragile, s.Name)
+			}
+		}
+		obl = append(obl, ent)
 	}
 	ev := map[string]interface{}{
 		"property_id": P, "tier": *tier, "seed": seed, "level": "proof", "wall_s": wall, "violations": violations,
@@ -358,6 +370,7 @@ func cmdCheck(args []string) int {
 			"unverified":               unverified,
 			"vacuity":                  map[string]interface{}{"requires_covers_unsat": coverFails, "missing_expected_obligations": missing},
 			"obligation_list":          obl,
+			"single_solver_obligations": fragile,
 			"explanation":              "every obligation generated from the contracts of the listed functions on the current working tree, discharged (unsat of assumptions ∧ ¬goal) by the SMT portfolio; an obligation counts as discharged only if every path instance is",
 		},
 		"assumptions": tb,
@@ -417,6 +430,17 @@ func summarizeObligs(res *UnitResult, dir string, e *Engine, outDir string) []*o
 		}
 		s.Instances++
 		s.Seconds += o.Res.Seconds
+		if len(o.Res.All) > 1 {
+			n := 0
+			for _, v := range o.Res.All {
+				if v == "unsat" {
+					n++
+				}
+			}
+			if s.MinAgree == 0 || n < s.MinAgree {
+				s.MinAgree = n
+			}
+		}
 		if o.Res.Solver != "" && !containsStr(s.Solvers, o.Res.Solver) {
 			s.Solvers = append(s.Solvers, o.Res.Solver)
 		}
@@ -590,8 +614,11 @@ func firstComment(file string) string {
 func cmdSelftest(args []string) int {
 	fl := flag.NewFlagSet("selftest", flag.ExitOnError)
 	only := fl.String("m", "", "run only mutants whose file name contains this")
+	onlyProp := fl.String("p", "", "run only the mutants (and benign patches) of this property, and only its check")
 	fl.Parse(args)
 	files, _ := filepath.Glob(filepath.Join(verifRoot, "selftest", "mutants", "*.patch"))
+	benign, _ := filepath.Glob(filepath.Join(verifRoot, "selftest", "benign", "*.patch"))
+	files = append(files, benign...)
 	sort.Strings(files)
 	self, _ := os.Executable()
 	bad := 0
@@ -609,6 +636,7 @@ func cmdSelftest(args []string) int {
 			defer func() { <-sem }()
 			data, _ := os.ReadFile(pf)
 			var props, expects []string
+			isBenign := strings.Contains(pf, string(filepath.Separator)+"benign"+string(filepath.Separator))
 			for _, l := range strings.Split(string(data), "\n") {
 				if strings.HasPrefix(l, "# property:") {
 					props = append(props, strings.Fields(strings.TrimPrefix(l, "# property:"))...)
@@ -616,6 +644,12 @@ func cmdSelftest(args []string) int {
 				if strings.HasPrefix(l, "# expect:") {
 					expects = append(expects, strings.TrimSpace(strings.TrimPrefix(l, "# expect:")))
 				}
+			}
+			if *onlyProp != "" {
+				if !hasProp(props, *onlyProp) {
+					return
+				}
+				props = []string{*onlyProp}
 			}
 			scratch, _ := os.MkdirTemp("", "ebu-selftest-")
 			tmpVerif, _ := os.MkdirTemp("", "ebu-selftest-verif-")
@@ -635,8 +669,25 @@ func cmdSelftest(args []string) int {
 			detail := ""
 			if out, err := run(scratch, "patch", "-p1", "-i", pf); err != nil {
 				status, detail = "PATCH-FAILED", out
-			} else if out, err := run(scratch, "go", "build", "./..."); err != nil {
+			} else if out, err := buildAll(run, scratch); err != nil {
 				status, detail = "BUILD-FAILED", out
+			} else if isBenign {
+				// a harmless change: every listed property check must stay quiet
+				for _, p := range props {
+					c := exec.Command(self, "check", "-p", p)
+					c.Env = append(os.Environ(), "EBU_REPO="+scratch, "EBU_VERIF="+tmpVerif)
+					out, _ := c.CombinedOutput()
+					if strings.Contains(string(out), "VIOLATION") {
+						status = "FALSE-ALARM"
+						for _, l := range strings.Split(string(out), "\n") {
+							if strings.HasPrefix(l, "  obligation") || strings.HasPrefix(l, "  unverified") {
+								detail += " [" + p + "]" + strings.TrimSpace(l)[:min(len(strings.TrimSpace(l)), 120)]
+							}
+						}
+					} else {
+						detail += " quiet[" + p + "]"
+					}
+				}
 			} else {
 				for _, p := range props {
 					c := exec.Command(self, "check", "-p", p)
@@ -672,6 +723,16 @@ func cmdSelftest(args []string) int {
 		return 1
 	}
 	return 0
+}
+
+// buildAll compiles every module of the scratch copy (a mutant must compile).
+func buildAll(run func(dir string, name string, a ...string) (string, error), scratch string) (string, error) {
+	for _, m := range []string{".", "otel", "stores/sqlite", "stores/durablestream"} {
+		if out, err := run(filepath.Join(scratch, m), "go", "build", "./..."); err != nil {
+			return m + ": " + out, err
+		}
+	}
+	return "", nil
 }
 
 // coverUnsat: true iff the assumptions of a cover are definitely unsatisfiable.
